@@ -251,14 +251,25 @@ def r3(ctx):
                 tmp if tmp is not None else fi.node,
                 'regions must be read from the assembly being iterated',
                 key=fi.full + ' | regions of a')
-    h = find_all('ax_bnd = np.unique(np.around(ax_bnd, 12))', fi.node, 'stmt')
-    ctx.require(len(h) == 1, 'C05.R3', fi, h[0][0] if h else fi.node,
+    # the stored boundary set is unique(around(<accumulated list>, 12)),
+    # directly or through a re-binding of the accumulator
+    st_ab = [st for t, st in U.stores(fi.node)
+             if src(t) == 'self.axial_bnds' and isinstance(st, ast.Assign)]
+    ok_ru = False
+    if len(st_ab) == 1:
+        v = st_ab[0].value
+        if isinstance(v, ast.Name):
+            ds = [d for d in U.assigns_of(fi.node, v.id)
+                  if isinstance(d, ast.Assign) and d.lineno < st_ab[0].lineno]
+            v = ds[-1].value if ds else v
+        m_ = match('np.unique(np.around(Q_x, 12))', v)
+        ok_ru = m_ is not None and isinstance(m_['Q_x'], ast.Name)
+    ctx.require(ok_ru, 'C05.R3', fi, st_ab[0] if st_ab else fi.node,
                 'bounds must be rounded to 1e-12 and uniqued (sorted)',
                 key=fi.full + ' | round unique')
     h2 = find_all('self.core_length = self.axial_bnds[-1]', fi.node, 'stmt')
-    h3 = find_all('self.axial_bnds = ax_bnd', fi.node, 'stmt')
-    ok = len(h2) == 1 and len(h3) == 1 and h and \
-        h[0][0].lineno < h3[0][0].lineno < h2[0][0].lineno
+    ok = len(h2) == 1 and len(st_ab) == 1 and \
+        st_ab[0].lineno < h2[0][0].lineno
     ctx.require(ok, 'C05.R3', fi, h2[0][0] if h2 else fi.node,
                 'core length must be the last (largest) boundary',
                 key=fi.full + ' | core length')
